@@ -73,12 +73,93 @@ def _coupling(v):
     return None
 
 
+@guarded
+def rule_wparity(repo):
+    """q and -q are the same rotation and must get the same Log: Log(q) = factor(|v|, w) v, so factor(|v|, -w) (-v) = factor(|v|, w) v, i.e. every branch of
+    the factor is an ODD function of the real part w.  Parity is computed syntactically: w is odd; |w|, w^2, |v| and constants are even; products and
+    quotients multiply parities; odd functions (atan, tan, sin, asin, pm / sign) preserve, even functions (cos, abs, square) make even; a sum needs equal
+    parities.  `atan(|v| / |w|)` is even in w: for w < 0 it returns the Log of the inverse rotation."""
+    res = RuleResult('C02.WPAR', 'SO3_Log.forward: every branch of the factor multiplying the vector part is an odd function of the real part w (q and -q get the same '
+                     'Log)', floor=3)
+    f = repo.func(OP, 'SO3_Log.forward')
+    groups, guards, inl = masks.analyse_function(f.node)
+    # the real part: input[..., 3:] / input[..., 3] / input[..., -1:]
+    def is_w(e):
+        if isinstance(e, ast.Subscript) and isinstance(e.value, ast.Name) and e.value.id == f.pos_params[0]:
+            sl = src(e.slice).replace(' ', '').strip('()')
+            return sl in ('...,3:', '...,3', '...,-1:', '...,-1', '...,3:4')
+        return False
+    ODD_F = {'atan', 'arctan', 'tan', 'sin', 'asin', 'arcsin', 'sinh', 'tanh', 'pm', 'sign', 'sgn', 'nan_to_num', 'clone', 'squeeze', 'unsqueeze', 'neg'}
+    EVEN_F = {'cos', 'abs', 'square', 'cosh', 'norm'}
+
+    def par(e):
+        """'o' / 'e' / None (mixed or unknown)"""
+        if is_w(e):
+            return 'o'
+        if isinstance(e, ast.Constant):
+            return 'e'
+        if isinstance(e, ast.Attribute) and e.attr in ('pi', 'eps'):
+            return 'e'
+        if isinstance(e, ast.UnaryOp):
+            return par(e.operand)
+        if isinstance(e, ast.BinOp):
+            if isinstance(e.op, (ast.Mult, ast.Div, ast.MatMult)):
+                a, b = par(e.left), par(e.right)
+                if a is None or b is None:
+                    return None
+                return 'e' if a == b else 'o'
+            if isinstance(e.op, (ast.Add, ast.Sub)):
+                a, b = par(e.left), par(e.right)
+                # an even ZERO-free sum with a constant: 1/w - v^2/(3 w^3) both odd -> odd
+                return a if a == b else None
+            if isinstance(e.op, ast.Pow) and isinstance(e.right, ast.Constant) and isinstance(e.right.value, int):
+                a = par(e.left)
+                return None if a is None else ('e' if e.right.value % 2 == 0 or a == 'e' else 'o')
+            return None
+        if isinstance(e, ast.Call):
+            d = dotted(e.func) or ''
+            nm = d.split('.')[-1] if d else (e.func.attr if isinstance(e.func, ast.Attribute) else '')
+            arg = e.func.value if isinstance(e.func, ast.Attribute) and not d.startswith(('torch.', 'math.')) and d != 'pm' else (e.args[0] if e.args else None)
+            if arg is None:
+                return 'e'
+            a = par(arg)
+            if nm in EVEN_F:
+                return 'e' if a is not None else None
+            if nm in ODD_F:
+                return a
+            return None
+        if isinstance(e, ast.Subscript):
+            return par(e.value) if not is_w(e) else 'o'
+        if isinstance(e, ast.Name):
+            return 'e'                                    # the argument itself / other tensors: even (independent of the sign flip of w alone is NOT assumed: see is_w first)
+        return None
+    sg = [g for g in groups if g.kind == 'sum']
+    if not sg:
+        raise AnalysisError('C02.WPAR: the masked sum of SO3_Log.forward was not found')
+    for i, m in enumerate(sg[0].members):
+        val = None
+        for x in m[1]:
+            if isinstance(x, tuple):
+                val = ast.BinOp(val if val is not None else ast.Constant(1.0), ast.Div(), x[1])
+            else:
+                val = x if val is None else ast.BinOp(val, ast.Mult(), x)
+        pw = par(val) if val is not None else None
+        res.inst({'function': f.fq, 'branch': src(val)[:70] if val is not None else None, 'parity in w': {'o': 'odd', 'e': 'even', None: 'mixed / unknown'}[pw]}, (f.fq, i))
+        if pw == 'e':
+            res.add(Finding('C02.WPAR', f, 'the branch `%s` of the Log factor is EVEN in the real part w: the quaternions q and -q (one rotation) get opposite logarithms, and '
+                            'for w < 0 Exp(Log(X)) is the inverse of X' % src(val)[:70], construct='branch even in w|%d' % i))
+        elif pw is None:
+            raise AnalysisError('C02.WPAR: parity of the branch `%s` could not be determined' % (src(val)[:60] if val is not None else '?'))
+    return res
+
+
 def _rules_core(repo, tier):
     out = rule_masks(repo, 'C02.MP', 'C02.GD', LOG_TARGETS, floor=5, exceptions=GD_EXCEPTIONS)
     out.append(rule_layout(repo, 'C02.LT', [
         ('SO3_Log', ['SO3'], 'so3'), ('SE3_Log', ['SE3'], 'se3'), ('RxSO3_Log', ['RxSO3'], 'rxso3'), ('Sim3_Log', ['Sim3'], 'sim3')], floor=4))
     out.append(rule_pair(repo))
     out.append(rule_range(repo))
+    out.append(rule_wparity(repo))
     from ..limits import rule_limit
     out.append(rule_limit(repo, 'C02.LIMIT', LOG_TARGETS, floor=11, decided_floor=11))
     out.append(rule_dtype(repo, 'C02.DTYPE', LOG_TARGETS + [(OP, 'SE3_Log.forward'), (OP, 'Sim3_Log.forward'), (OP, 'RxSO3_Log.forward')], floor=6))
